@@ -60,6 +60,21 @@ def run_case(ctx, name, params):
     if name == "queries":
         p, inds, n, m, crit, tags = build(r)
         res = Results(p)
+        if r.random() < 0.5 and len(inds) >= 2:
+            # the Results object is created and queried while the run is still recording: individuals recorded afterwards
+            # (and tags changed afterwards) must show up in later answers
+            late = inds[len(inds) // 2:]
+            del p.individuals[len(inds) // 2:]
+            try:
+                res.population(); res.table(); res.costs(); res.parameters(); res.find_optimum()
+                res.goal_on_index(); res.pareto_front()
+            except Exception:
+                pass
+            for i in late:
+                p.individuals.append(i)
+            if r.random() < 0.5:
+                inds[0].population_id = r.choice(tags)
+            ctx.count("queries_repeated_after_more_recording")
         rec = [{"vector": i.vector, "costs": i.costs, "tag": i.population_id, "front": i.features["front_number"]} for i in inds]
         wit = lambda extra=None: {"recorded": rec[:12], "criteria": crit, "extra": extra}
         present = sorted({i.population_id for i in inds})
